@@ -718,8 +718,8 @@ class tzfile(_tzinfo):
         return idx - 1
 
     def _get_ttinfo(self, idx):
-        # For no list or after the last transition, default to _ttinfo_std
-        if idx is None or (idx + 1) >= len(self._trans_list):
+        # For no list, default to _ttinfo_std
+        if idx is None:
             return self._ttinfo_std
 
         # If there is a list and the time is before it, return _ttinfo_before
